@@ -25,7 +25,7 @@ struct File {
   // listener
   std::deque<File*> acceptQ; bool listening;
   // epoll
-  struct Interest { uint32_t events; uint64_t data; uint32_t seenIn, seenOut; };   // seen*: edge counters of the file at the last report (EPOLLET registrations)
+  struct Interest { uint32_t events; uint64_t data; uint32_t seenIn, seenOut; File* file; };   // file: the open file description the registration belongs to (it outlives the descriptor number while duplicates of the description stay open)   // seen*: edge counters of the file at the last report (EPOLLET registrations)
   std::map<int, Interest> interest;           // fd -> interest (keyed by fd number like the kernel; entries die with the file)
   // eventfd
   uint64_t counter;
